@@ -441,8 +441,9 @@ func AllocRule(w *World, b *Backend, r *Result, rule string, labelsOnly ...bool)
 		}
 	}
 	if len(instance) == 0 {
-		r.Bad(rule, "alloc:"+b.Role+":counters", "-", "no construct counter found (opener methods bump no field)")
-		return
+		// not fatal by itself: names may come from elsewhere; the depth clause below still applies,
+		// and the floor of the rule catches a tree in which nothing is left to judge
+		r.Triv(rule, "alloc:"+b.Role+":counters", "-", "no construct counter is bumped by an opener in this back end")
 	}
 	// the function stack (pushed by FuncStart): its depth names function frames, which is
 	// the business of the frame rule of C02, not of loop / branch instances
@@ -540,6 +541,10 @@ func AllocRule(w *World, b *Backend, r *Result, rule string, labelsOnly ...bool)
 	for _, so := range sts {
 		for _, st := range b.X.ResolveStackStores(so) {
 			for _, u := range numUses(st.T) {
+				if strings.Contains(u.expr, "len(field:") && !strings.Contains(u.expr, "len(field:"+funcStack+")") {
+					r.Bad(rule, fmt.Sprintf("alloc:%s:push:%s:%s<depth>", b.Role, so, u.name), w.Pos(st.Fn.Pos()), fmt.Sprintf("%s pushes the instance name %s numbered by the nesting depth (%s): constructs at the same depth share it — a loop in a called function overwrites the flag of the caller's loop", FuncName(st.Fn), st.T, u.expr))
+					continue
+				}
 				if !instance[u.counter] {
 					continue
 				}
